@@ -79,6 +79,8 @@ type summary struct {
 	BehPanicsModel int            `json:"behaviours_model_predicts_panic"`
 	BehPanicsReal  int            `json:"behaviours_real_panic"`
 	MechConform    int            `json:"behaviours_mechanism_conformant"`
+	PoolBehaviours int            `json:"pool_behaviours"`
+	PoolSteps      int            `json:"pool_behaviour_steps"`
 	ConcLines      int            `json:"concurrent_lines"`
 	Views          int            `json:"views_rendered"`
 	ViewsByType    map[string]int `json:"views_by_type"`
@@ -1193,14 +1195,143 @@ func stageD(seed int64, thorough bool) {
 }
 
 // ---------------------------------------------------------------------------------------------
+// stage F: several lines alive at once, built in every interleaving TLC enumerated (spec/LogLinePool.tla), finished
+// through ToString(), Write() with a working writer or Write() with a failing writer. Every line must come out as the
+// concatenation of its own fields: what ToString() returns and what Write() hands to the writer.
+
+type poolStep struct {
+	A string `json:"a"`
+	L int    `json:"l"`
+	K int    `json:"k"`
+}
+
+type poolBeh struct {
+	H []poolStep `json:"h"`
+}
+
+// tapWriter records what Write() hands over and fails on demand.
+type tapWriter struct {
+	got  []byte
+	fail bool
+}
+
+func (w *tapWriter) Write(b []byte) (int, error) {
+	w.got = append([]byte{}, b...)
+	if w.fail {
+		return 0, errors.New("verif: injected writer failure")
+	}
+	return len(b), nil
+}
+
+func poolField(l *fastlog.Line, line, k int) string {
+	switch k % 4 {
+	case 1:
+		v := line*100000 + k
+		l.Int("i", v)
+		return " i=" + strconv.Itoa(v)
+	case 2:
+		v := strings.Repeat(string(rune('a'+line)), 3+line)
+		l.String("s", v)
+		return " s=\"" + v + "\""
+	case 3:
+		m := net.HardwareAddr{byte(line), 0x10, 0x20, 0x30, 0x40, byte(k)}
+		l.MAC("m", m)
+		return " m=" + m.String()
+	}
+	ip := net.IP{10, byte(line), byte(k), 1}
+	l.IPSlice("p", ip)
+	return " p=" + ip.String()
+}
+
+// runPool replays one interleaving. Returns a description of the first line that is not its own fields.
+func runPool(b poolBeh) (bad string, pan interface{}) {
+	defer func() {
+		if r := recover(); r != nil {
+			pan = r
+		}
+	}()
+	old := fastlog.DefaultIOWriter
+	defer func() { fastlog.DefaultIOWriter = old }()
+	lines := map[int]*fastlog.Line{}
+	want := map[int]string{}
+	for _, st := range b.H {
+		switch st.A {
+		case "msg":
+			m := fmt.Sprintf("line %d", st.L)
+			lines[st.L] = lg.Msg(m)
+			want[st.L] = prefix + " \"" + m + "\""
+		case "field":
+			want[st.L] += poolField(lines[st.L], st.L, st.K)
+		case "tostring":
+			if got := lines[st.L].ToString(); got != want[st.L] && bad == "" {
+				bad = fmt.Sprintf("line %d: ToString() gives %q, its own fields are %q", st.L, got, want[st.L])
+			}
+		case "write", "writefail":
+			w := &tapWriter{fail: st.A == "writefail"}
+			fastlog.DefaultIOWriter = w
+			lines[st.L].Write()
+			if got := strings.TrimSuffix(string(w.got), "\n"); got != want[st.L] && bad == "" {
+				bad = fmt.Sprintf("line %d: Write() hands %q to the writer, its own fields are %q", st.L, got, want[st.L])
+			}
+		}
+	}
+	return bad, nil
+}
+
+func stageF(path string) error {
+	f, err := os.Open(path)
+	if err != nil {
+		return err
+	}
+	defer f.Close()
+	sc := bufio.NewScanner(f)
+	sc.Buffer(make([]byte, 1<<20), 1<<24)
+	n := 0
+	for sc.Scan() {
+		var b poolBeh
+		if err := json.Unmarshal(sc.Bytes(), &b); err != nil {
+			return fmt.Errorf("bad pool behaviour: %v", err)
+		}
+		n++
+		sum.PoolBehaviours++
+		sum.PoolSteps += len(b.H)
+		distinct["p:"+strconv.Itoa(int(fnv(string(sc.Bytes()))))] = struct{}{}
+		if n == 7 || n == 5003 {
+			sum.Samples = append(sum.Samples, json.RawMessage(append([]byte{}, sc.Bytes()...)))
+		}
+		bad, pan := runPool(b)
+		if pan != nil {
+			bad = fmt.Sprintf("panic: %v", pan)
+		}
+		if bad != "" {
+			fail("C20:lines-not-independent", bad, map[string]interface{}{"op": "pool", "b": json.RawMessage(append([]byte{}, sc.Bytes()...))})
+		}
+	}
+	return sc.Err()
+}
+
+// ---------------------------------------------------------------------------------------------
 // stage E: lines built concurrently by several goroutines (each line belongs to one goroutine; the pool and any
 // scratch storage of the appenders are shared). Every finished line is compared with its reference text.
+
+type failOnDemand struct{}
+
+func (failOnDemand) Write(b []byte) (int, error) {
+	if bytes.Contains(b, []byte("failme")) {
+		return 0, errors.New("verif: injected writer failure")
+	}
+	return len(b), nil
+}
 
 func stageE(seed int64, thorough bool) (bad int, first string) {
 	workers, iters := 8, 4000
 	if thorough {
 		iters = 40000
 	}
+	// the package writer fails for lines that ask for it: a failed Write() must still hand its buffer back exactly once
+	old := fastlog.DefaultIOWriter
+	fastlog.DefaultIOWriter = failOnDemand{}
+	defer func() { fastlog.DefaultIOWriter = old }()
 	type res struct {
 		bad   int
 		first string
@@ -1220,6 +1351,9 @@ func stageE(seed int64, thorough bool) (bad int, first string) {
 			}()
 			rng := rand.New(rand.NewSource(seed*977 + int64(w)))
 			for i := 0; i < iters; i++ {
+				if i%5 == 0 {
+					lg.Msg("w").String("k", []string{"failme", "fine"}[i/5%2]).Int("i", i).Write()
+				}
 				iv := int(rng.Int63()>>uint(rng.Intn(63))) * (1 - 2*rng.Intn(2))
 				u := rng.Uint32() >> uint(rng.Intn(32))
 				ip := make(net.IP, 16)
@@ -1338,6 +1472,23 @@ func runCase(js string) int {
 		if r.failKey != "" {
 			fail(r.failKey, r.failWhat, nil)
 		}
+	case "pool":
+		raw, _ := json.Marshal(c["b"])
+		var b poolBeh
+		if err := json.Unmarshal(raw, &b); err != nil {
+			fmt.Fprintln(os.Stderr, err)
+			return 2
+		}
+		for attempt := 0; attempt < 3; attempt++ { // sync.Pool may be emptied by a collection: a few chances
+			bad, pan := runPool(b)
+			if pan != nil {
+				bad = fmt.Sprintf("panic: %v", pan)
+			}
+			if bad != "" {
+				fail("C20:lines-not-independent", bad, nil)
+				break
+			}
+		}
 	case "concurrent":
 		cs := int64(1)
 		if n, ok := c["seed"].(json.Number); ok {
@@ -1442,6 +1593,7 @@ func replaySweep(c map[string]interface{}) {
 func main() {
 	vectors := flag.String("vectors", "", "ndjson renderer vectors printed by TLC (LogLineVec.tla)")
 	behs := flag.String("behaviours", "", "ndjson behaviours printed by TLC (LogLineMC.tla)")
+	pools := flag.String("pool", "", "ndjson interleavings printed by TLC (LogLinePool.tla)")
 	one := flag.String("case", "", "re-execute one case (JSON)")
 	flag.Parse()
 	vh.Quiet()
@@ -1474,6 +1626,12 @@ func main() {
 			}
 		}
 		stageD(seed, thorough)
+		if *pools != "" {
+			if err := stageF(*pools); err != nil {
+				fmt.Fprintln(os.Stderr, "pool behaviours:", err)
+				os.Exit(2)
+			}
+		}
 		if bad, first := stageE(seed, thorough); bad > 0 {
 			fail("C20:concurrent", fmt.Sprintf("%d lines built concurrently differ from their reference text; %s", bad, first),
 				map[string]interface{}{"op": "concurrent", "seed": seed, "thorough": thorough})
